@@ -608,8 +608,39 @@ fn part_b(ctx: &Ctx, rep: &mut Report) {
     }
 }
 
+fn part_b_payloads(ctx: &Ctx, rep: &mut Report) {
+    // B8: payload lengths (the marker and everything after it), with and without options in front
+    let mut lens: Vec<usize> = (0..=300).collect();
+    lens.extend(1265..=1295);
+    lens.extend([4096, 63990, 63999, 64000, 64001, 65535, 65536, 100_000]);
+    let radices = [lens.len() as u64, 3, 2];
+    let n = product(&radices);
+    ctx.family(
+        rep,
+        "B8-payload-lengths",
+        "payload length 0..=300 (every value), 1265..=1295, 4096, around 64000, 65535, 65536, 100000 x options {none, one short, one of 269 bytes} x payload first byte {0xFF, other}",
+        n,
+        true,
+        |i, rep| {
+            let d = decode(i, &radices);
+            let mut payload = pattern(lens[d[0] as usize], 0x17);
+            if d[2] == 1 && !payload.is_empty() {
+                payload[0] = 0x42;
+            }
+            let options = match d[1] {
+                0 => vec![],
+                1 => vec![(11u32, b"p".to_vec())],
+                _ => vec![(35u32, pattern(269, 4))],
+            };
+            let m = RefMsg { version: 1, mtype: 0, token: vec![9], code: 0x45, mid: 0x0101, options, payload };
+            run_case("B8-payload-lengths", i, n, &m, ctx, rep);
+        },
+    );
+}
+
 pub fn run(ctx: &Ctx, rep: &mut Report) {
     part_a(ctx, rep);
+    part_b_payloads(ctx, rep);
     part_b(ctx, rep);
     rep.note("max_size", Packet::MAX_SIZE);
     rep.assume("refmodel::codec (RFC 7252 section 3 encoder/parser written from the RFC text) is the trusted reference");
